@@ -265,6 +265,19 @@ func RunProgram(p *Program, store string, seed int64, oo ObsOpts, enc *json.Enco
 	for _, op := range p.Ops {
 		for _, prim := range ex.Expand(op) {
 			prim := prim()
+			if op.Via == "other" && root != "" {
+				// another tool (here: a second server, never closed) writes to the layout behind the back of the server under
+				// test; the step is observed through the writer, the server under test meets the change with its next request
+				saved := ex.Srv
+				ex.Srv = NewSrv(cfg, root)
+				r := ex.Do(prim)
+				err := emit(prim, r)
+				ex.Srv = saved
+				if err != nil {
+					return events, err
+				}
+				continue
+			}
 			r := ex.Do(prim)
 			if err := emit(prim, r); err != nil {
 				return events, err
